@@ -28,7 +28,8 @@ STUB_COMPONENTS = ["queue.Queue / time.sleep / threading primitives seen by the 
 ASSUMPTIONS = ["bounded liveness: once the last job is enqueued and no fault is pending every Future is done within "
                "10 s + 2 s x jobs (+ injected stall time) of virtual time",
                "no pre-emption inside semantiva.core / pipeline execution (a job run is one scheduling step)"]
-REQUIRED_PROBES = ["failing_job", "slow_job", "multi_worker", "late_worker", "batch_ge_10", "fire_and_forget_job_mixed_in", "two_failing_jobs"]
+REQUIRED_PROBES = ["failing_job", "slow_job", "multi_worker", "late_worker", "batch_ge_10", "fire_and_forget_job_mixed_in", "two_failing_jobs",
+                   "same_yaml_path_rewritten", "failing_job_with_two_argument_exception"]
 CONFIG = {
     "quick": {"runs": 2500, "budget_s": 240, "timeout_s": 120, "per_fork": 4},
     "thorough": {"runs": 150000, "budget_s": 1600, "timeout_s": 180, "per_fork": 6},
@@ -61,7 +62,11 @@ def generate(rng: random.Random, tier: str, seed: int) -> dict:
                "as_yaml": rng.random() < 0.12}              # pipeline_cfg given as a path to a YAML file
         if j in fail_set:
             fs = [f for f in gen.applicable_failures(base) if f[0] in ("unresolvable", "type_gate", "undeclared_op", "undeclared_ctx", "unknown_param")]
-            if fs:
+            if rng.random() < 0.25 and base["truth"][-1]["out"] == "float":
+                # the pipeline raises a domain exception whose constructor takes two arguments
+                job["nodes"] = job["nodes"] + [{"processor": "SvRaiseOdd"}]
+                job["fail"] = ["odd_exception", len(job["nodes"]) - 1]
+            elif fs:
                 kind, k = rng.choice(fs)
                 f = gen.apply_failure(base, kind, k)
                 job["nodes"] = f["nodes"]
@@ -70,10 +75,16 @@ def generate(rng: random.Random, tier: str, seed: int) -> dict:
             job["nodes"] = job["nodes"] + [{"processor": "SvSlow", "parameters": {"delay": rng.choice([0.3, 1.0, 2.5])}}]
             job["slow"] = True
         jobs.append(job)
+    yaml_pair = None
+    if rng.random() < 0.2:
+        a1 = gen.gen_pipeline(rng, max_nodes=3, allow_file_sink=False)
+        a2 = gen.gen_pipeline(rng, max_nodes=3, allow_file_sink=False)
+        yaml_pair = [{"nodes": a1["nodes"], "context": a1["context"], "init_data": a1["init_data"]},
+                     {"nodes": a2["nodes"], "context": a2["context"], "init_data": a2["init_data"]}]
     nworkers = rng.randint(1, 4)
     return {"jobs": jobs, "workers": [{"start_delay": rng.choice([0.0, 0.0, 0.0, 0.4, 1.5]), "poll": rng.choice([0.1, 0.1, 0.05, 0.2])}
                                       for _ in range(nworkers)],
-            "strategy": rng.choice(FAIR_STRATEGIES), "sched_seed": rng.getrandbits(48), "choices": None}
+            "yaml_pair": yaml_pair, "strategy": rng.choice(FAIR_STRATEGIES), "sched_seed": rng.getrandbits(48), "choices": None}
 
 
 def _expected(job: dict, w) -> dict:
@@ -112,6 +123,8 @@ def execute(sc: dict, seed: int) -> dict:
         stall_total = sum(n.get("parameters", {}).get("delay", 0.0) for j in sc["jobs"] for n in j["nodes"] if n.get("processor") == "SvSlow")
         bound = 10.0 + 2.0 * njobs + stall_total
         futures: list = [None] * njobs
+        pair_futures: list = []
+        pair_expected = [_expected(j, w) for j in (sc.get("yaml_pair") or [])]
         info: dict = {"t_last_enqueue": None, "t_all_done": None, "gave_up": False}
         with threads.Installed(sched, [im, qo, wk]):
             tr = im.InMemorySemantivaTransport()
@@ -152,6 +165,17 @@ def execute(sc: dict, seed: int) -> dict:
                         info["gave_up"] = True
                         break
                     threads.sim_sleep(0.05)
+                # two more jobs given as the SAME YAML path whose content is rewritten after the first one completed
+                if sc.get("yaml_pair") and not info["gave_up"]:
+                    path = os.path.join(w.sandbox, "shared_job.yaml")
+                    for k, job in enumerate(sc["yaml_pair"]):
+                        harness.write_cli_config({"nodes": job["nodes"]}, "shared_job.yaml", executor=False)
+                        data = None if job["init_data"] is None else FloatDataType(float(job["init_data"]))
+                        f = orch.enqueue(path, data=data, context=ContextType(copy.deepcopy(job["context"])), return_future=True)
+                        t0 = sched.now
+                        while not f.done() and sched.now - t0 < 15.0:
+                            threads.sim_sleep(0.05)
+                        pair_futures.append(f)
                 # grace period: a duplicate completion would blow up the master here
                 threads.sim_sleep(1.0)
                 stop.set()
@@ -210,6 +234,25 @@ def execute(sc: dict, seed: int) -> dict:
                                            + (f"; equals job {other[0]}'s result" if other else "")))
                 if not isinstance(jid, str) or not jid:
                     viols.append(oracles.V("result", "job_id_annotation_missing", f"job {i}: context has no job_id annotation"))
+        if outcome == "completed" and pair_futures:
+            stats["probe.same_yaml_path_rewritten"] = 1
+            for k, (fut, exp) in enumerate(zip(pair_futures, pair_expected)):
+                if not fut.done():
+                    viols.append(oracles.V("liveness", "yaml_path_job_not_done", f"YAML-path job {k} not done"))
+                    continue
+                if not exp["ok"]:
+                    continue
+                if fut.exception() is not None:
+                    viols.append(oracles.V("result", "yaml_path_job_failed", f"YAML-path job {k}: {fut.exception()!r}"))
+                    continue
+                data, ctx = fut.result()
+                got_ctx = ctx_snapshot(ctx)
+                got_ctx.pop("job_id", None)
+                if harness.canon(_data_repr(data)) != harness.canon(exp["data"]) or harness.canon(got_ctx) != harness.canon(exp["context"]):
+                    viols.append(oracles.V("result", "yaml_path_job_ran_stale_config", f"job {k} given as path shared_job.yaml (rewritten before it was enqueued): got "
+                                           f"{_data_repr(data)} {got_ctx}, running the file's pipeline directly gives {exp['data']} {exp['context']}"))
+        if any(j.get("fail") and j["fail"][0] == "odd_exception" for j in sc["jobs"]):
+            stats["probe.failing_job_with_two_argument_exception"] = 1
         if any(j.get("fail") for j in sc["jobs"]):
             stats["probe.failing_job"] = 1
             stats["fault.failing_job"] = 1
